@@ -221,6 +221,19 @@ func sigMatch(known, sig string) bool {
 	return known == sig
 }
 
+// ViolationOccurrences is the total number of times any (not known) violation was reported.
+func (c *Ctx) ViolationOccurrences() int {
+	c.mu.Lock()
+	defer c.mu.Unlock()
+	n := 0
+	for _, v := range c.viol {
+		if !v.Known {
+			n += v.Count
+		}
+	}
+	return n
+}
+
 func (c *Ctx) Violations() int {
 	c.mu.Lock()
 	defer c.mu.Unlock()
